@@ -216,7 +216,7 @@ pub fn gen_case<R: Rng>(rng: &mut R, real: bool) -> Case {
         if rng.gen_bool(0.25) {
             cfg.inner_steps = rng.gen_range(1, 4);
         }
-        let mut sc = ScriptedCase { init, bounds, script, cfg, via_api: rng.gen_bool(0.3) };
+        let mut sc = ScriptedCase { init, bounds, script, cfg, via_api: rng.gen_bool(0.3), aliases: vec![] };
         mc::maybe_start_outside(rng, &mut sc, 0.15);
         Case::Scripted(sc)
     }
